@@ -66,6 +66,9 @@ Inductive peer_attr := PeerOk (a : addr) | PeerBad.    (* XOR-PEER-ADDRESS decod
 Inductive request :=
 | RqAllocate (transport : attr N) (lifetime : attr N) (family : attr N) (dontfrag : bool)
              (relay_port : option N)            (* environment: what the relay address generator will hand out *)
+             (evenport : bool)                  (* EVEN-PORT present (with its one-byte value) *)
+             (rtoken : attr N)                  (* RESERVATION-TOKEN: the token's identity *)
+             (minted : N)                       (* environment: the token the server mints if it reserves a port *)
 | RqRefresh (lifetime : attr N) (family : attr N)
 | RqCreatePerm (peers : list peer_attr)
 | RqChannelBind (num : attr N) (peer : option peer_attr)
@@ -79,7 +82,7 @@ Inductive event :=
 | ETick (dt : Z)
 | ERelayErr (relay : addr).                                             (* relay socket read error *)
 
-Inductive sattr := SRelayed (a : addr) | SLifetime (secs : Z) | SMapped (a : addr).
+Inductive sattr := SRelayed (a : addr) | SLifetime (secs : Z) | SMapped (a : addr) | SToken (t : N).
 
 Inductive lifecycle :=
 | LAllocCreated (client : addr) (user : N) (relay : addr)
@@ -105,15 +108,26 @@ Record alloc := {
   a_perms : list perm; a_chans : list chan;
   a_tid : N; a_cache : list sattr;
 }.
-Record state := { now : Z; epoch_min : Z; allocs : list alloc }.
+(* a port reservation made for an EVEN-PORT allocation: the next-higher port, for 30 s *)
+Record rsv := { r_tok : N; r_port : N; r_dl : Z }.
+Record state := { now : Z; epoch_min : Z; allocs : list alloc; rsvs : list rsv }.
 (* [now] is ns since the start of the history; [epoch_min] the unix minute at its start
    (the harness starts on a whole minute). *)
 
-Definition init (epoch : Z) : state := {| now := 0; epoch_min := epoch; allocs := [] |}.
+Definition init (epoch : Z) : state := {| now := 0; epoch_min := epoch; allocs := []; rsvs := [] |}.
 Definition cur_minute (s : state) : Z := epoch_min s + now s / (60 * sec).
 
 Definition set_allocs (s : state) (l : list alloc) : state :=
-  {| now := now s; epoch_min := epoch_min s; allocs := l |}.
+  {| now := now s; epoch_min := epoch_min s; allocs := l; rsvs := rsvs s |}.
+Definition add_rsv (s : state) (r : rsv) : state :=
+  {| now := now s; epoch_min := epoch_min s; allocs := allocs s; rsvs := rsvs s ++ [r] |}.
+Definition rsv_lifetime : Z := 30 * sec.
+
+Fixpoint find_rsv (t : N) (l : list rsv) : option rsv :=
+  match l with
+  | [] => None
+  | r :: x => if (r_tok r =? t)%N then Some r else find_rsv t x
+  end.
 
 Fixpoint find_alloc (c : addr) (l : list alloc) : option alloc :=
   match l with
@@ -249,6 +263,7 @@ Definition default_family (cfg : config) (src : addr) : N :=
 (* ---------- handlers ---------- *)
 Definition h_allocate (cfg : config) (s : state) (src : addr) (tid : N) (uid : N) (realm : N)
            (transport lifetime family : attr N) (dontfrag : bool) (relay_port : option N)
+           (evenport : bool) (rtoken : attr N) (minted : N)
   : state * list action :=
   let err code := (s, [Error src MAllocate tid code false]) in
   match find_alloc src (allocs s) with
@@ -262,6 +277,20 @@ Definition h_allocate (cfg : config) (s : state) (src : addr) (tid : N) (uid : N
           if negb ((p =? 17)%N || (p =? 6)%N) then err 442%N
           else if dontfrag then err 420%N
           else
+            (* 5. RESERVATION-TOKEN (a well-sized one): not together with EVEN-PORT; must name a live reservation,
+               and then the port asked of the generator is the reserved one, the next-higher port *)
+            match (match rtoken with
+                   | APresent t => if evenport then inr 400%N
+                                   else match find_rsv t (rsvs s) with
+                                        | None => inr 508%N
+                                        | Some r => inl (Some (r_port r + 1)%N)
+                                        end
+                   | _ => inl None
+                   end) with
+            | inr code => err code
+            | inl want =>
+            (* 6. EVEN-PORT: the generator must come up with an even port *)
+            if evenport && negb (match relay_port with Some rp => N.even rp | None => false end) then err 508%N else
             match (match family with
                    | AAbsent => inl (default_family cfg src)
                    | ABadSize => inr 400%N
@@ -269,20 +298,25 @@ Definition h_allocate (cfg : config) (s : state) (src : addr) (tid : N) (uid : N
                    end) with
             | inr code => err code
             | inl fam =>
+                (* RFC 6156: RESERVATION-TOKEN and REQUESTED-ADDRESS-FAMILY exclude each other (any size) *)
+                if match rtoken, family with AAbsent, _ => false | _, AAbsent => false | _, _ => true end then err 400%N else
                 if negb (cfg_quota cfg uid realm src) then err 486%N else
                 let lt := granted_lifetime cfg lifetime in
                 if lt =? 0 then err 508%N else
                 match relay_port with
                 | None => err 508%N
                 | Some rp =>
+                    if match want with Some q => negb (rp =? q)%N | None => false end then err 508%N else
                     let relay := {| ip := if (fam =? 2)%N then cfg_relay_ip6 cfg else cfg_relay_ip4 cfg; port := rp |} in
-                    let attrs := [SRelayed relay; SLifetime (lt / sec); SMapped src] in
+                    let attrs := [SRelayed relay; SLifetime (lt / sec); SMapped src] ++ (if evenport then [SToken minted] else []) in
                     let a := {| a_client := src; a_user := uid; a_realm := realm; a_fam := fam; a_proto := p;
                                 a_relay := relay; a_dl := now s + lt; a_perms := []; a_chans := [];
                                 a_tid := tid; a_cache := attrs |} in
-                    (set_allocs s (allocs s ++ [a]),
+                    let s1 := set_allocs s (allocs s ++ [a]) in
+                    ((if evenport then add_rsv s1 {| r_tok := minted; r_port := rp; r_dl := now s + rsv_lifetime |} else s1),
                      [Life (LAllocCreated src uid relay); Success src MAllocate tid attrs])
                 end
+            end
             end
       end
   end.
@@ -466,7 +500,7 @@ Fixpoint tick_allocs (t : Z) (l : list alloc) : list alloc * list action :=
 Definition h_tick (s : state) (dt : Z) : state * list action :=
   let t := now s + Z.max 0 dt in
   let '(l, evs) := tick_allocs t (allocs s) in
-  ({| now := t; epoch_min := epoch_min s; allocs := l |}, evs).
+  ({| now := t; epoch_min := epoch_min s; allocs := l; rsvs := filter (fun r => t <? r_dl r) (rsvs s) |}, evs).
 
 Definition h_relay_err (s : state) (relay : addr) : state * list action :=
   match find_relay relay (allocs s) with
@@ -476,7 +510,7 @@ Definition h_relay_err (s : state) (relay : addr) : state * list action :=
 
 Definition req_method (r : request) : method :=
   match r with
-  | RqAllocate _ _ _ _ _ => MAllocate
+  | RqAllocate _ _ _ _ _ _ _ _ => MAllocate
   | RqRefresh _ _ => MRefresh
   | RqCreatePerm _ => MCreatePerm
   | RqChannelBind _ _ => MChannelBind
@@ -495,7 +529,7 @@ Definition step (cfg : config) (s : state) (e : event) : state * list action :=
           | AuthOK uid =>
               let realm := match c_realm c with Some r => r | None => 0%N end in
               match r with
-              | RqAllocate tr lt fam df rp => h_allocate cfg s src tid uid realm tr lt fam df rp
+              | RqAllocate tr lt fam df rp ep rt mt => h_allocate cfg s src tid uid realm tr lt fam df rp ep rt mt
               | RqRefresh lt fam => h_refresh cfg s src tid uid lt fam
               | RqCreatePerm peers => h_create_perm cfg s src tid uid peers
               | RqChannelBind n p => h_channel_bind cfg s src tid uid n p
